@@ -24,6 +24,7 @@ import (
 	"math/rand"
 	"path/filepath"
 	"sort"
+	"strings"
 	"testing"
 	"time"
 
@@ -63,6 +64,10 @@ type c15EngCase struct {
 	Query      []float32  `json:"query"`
 	K          int        `json:"k"`
 	Reinforce  [][]int    `json:"reinforce_calls"` // memory indexes per VReinforce call (-1: unknown id)
+	// Persist: between the first search and the reinforce calls the engine is optionally restarted ("restart"),
+	// restarted from a snapshot ("snapshot+restart") or from a compacted log ("rewrite+restart"); the decay laws
+	// must hold with the same configuration afterwards.
+	Persist string `json:"persist,omitempty"`
 }
 
 var c15HalfLives = []int64{0, 1, int64(time.Millisecond), int64(time.Second), int64(time.Minute), int64(time.Hour),
@@ -311,6 +316,7 @@ func c15GenEng() *rapid.Generator[c15EngCase] {
 			}
 			c.Reinforce = append(c.Reinforce, call)
 		}
+		c.Persist = rapid.SampledFrom([]string{"", "", "restart", "snapshot+restart", "snapshot+restart", "rewrite+restart"}).Draw(t, "persist")
 		return c
 	})
 }
@@ -689,7 +695,7 @@ func c15RunEng(c c15EngCase, stats *c15Stats) (msg string) {
 	if err != nil {
 		return "HARNESS: Open: " + err.Error()
 	}
-	defer e.Close()
+	defer func() { e.Close() }()
 
 	r := &c15Runner{c: c, cfg: c15BuildCfg(c), e: e, byID: map[string]int{}, stats: stats}
 	metric := distance.Euclidean
@@ -769,6 +775,29 @@ func c15RunEng(c c15EngCase, stats *c15Stats) (msg string) {
 
 	if msg := r.search("before reinforce"); msg != "" {
 		return msg
+	}
+	if c.Persist != "" {
+		if strings.HasPrefix(c.Persist, "snapshot") {
+			if err := e.SaveSnapshot(); err != nil {
+				return "HARNESS: SaveSnapshot: " + err.Error()
+			}
+		}
+		if strings.HasPrefix(c.Persist, "rewrite") {
+			if err := e.RewriteAOF(); err != nil {
+				return "HARNESS: RewriteAOF: " + err.Error()
+			}
+		}
+		if err := e.Close(); err != nil {
+			return "HARNESS: Close: " + err.Error()
+		}
+		e, err = Open(opts)
+		if err != nil {
+			return "HARNESS: Open after " + c.Persist + ": " + err.Error()
+		}
+		r.e = e
+		if msg := r.search("after " + c.Persist); msg != "" {
+			return msg
+		}
 	}
 
 	for ci, call := range c.Reinforce {
